@@ -44,7 +44,7 @@ inductive Call where
   | unlink (path : Bytes)
   | fstatat (d : Handle) (name : Bytes)
   | stat (path : Bytes)
-  | utimensat (d : Handle) (name : Bytes)
+  | utimensat (d : Handle) (name : Bytes) (atime mtime : Option Nat)   -- `none` = UTIME_OMIT; times in ns, 0 = "now"
   | lseek (fd : Handle)
   | mkostemp (template : Bytes)
   | mkdtemp (template : Bytes)
@@ -97,7 +97,6 @@ def call (c : Call) : Prog Res := .call c .ret
 structure File where
   data : Bytes                 -- what a reader sees
   durable : Bytes              -- content as of the last successful fsync
-  mtime : Int
 deriving Repr, DecidableEq
 
 /-- What an open handle refers to. -/
@@ -115,6 +114,7 @@ structure World where
   nextFid : Nat
   handles : List Obj                           -- handle h is handles[h]
   devs : List (Bytes × Nat)                    -- directory path prefix -> device (default 0)
+  mtimes : List (Nat × Nat) := []              -- file id -> modification time in ns; absent / 0 = set while this process ran
   trace : List (Call × Res)                    -- calls issued so far, oldest first
 deriving Repr
 
@@ -123,6 +123,8 @@ def World.dir (w : World) (path : Bytes) : Option (List (Bytes × Nat)) := (w.di
 def World.lookup (w : World) (path name : Bytes) : Option Nat :=
   (w.dir path).bind fun es => (es.find? (·.1 == name)).map (·.2)
 def World.obj (w : World) (h : Handle) : Obj := w.handles.getD h .closed
+def World.mtime (w : World) (fid : Nat) : Nat := ((w.mtimes.find? (·.1 == fid)).map (·.2)).getD 0
+def World.setMtime (w : World) (fid t : Nat) : World := { w with mtimes := (fid, t) :: w.mtimes.filter (·.1 != fid) }
 
 def World.setFile (w : World) (fid : Nat) (f : File) : World :=
   { w with files := (w.files.filter (·.1 != fid)) ++ [(fid, f)] }
@@ -196,7 +198,7 @@ def applyOk (w : World) (c : Call) (r : Res) : Option World :=
       | none =>
         let fid := w.nextFid
         let w1 := { w with nextFid := fid + 1 }
-        let w2 := (w1.setFile fid { data := [], durable := [], mtime := 0 }).bind p n fid
+        let w2 := (w1.setFile fid { data := [], durable := [] }).bind p n fid
         some (w2.newHandle (.file fid 0 true)).1
   | .openPath _, .ok _ => some (w.newHandle .other).1
   | .fopen _, .ok _ => some (w.newHandle .other).1
@@ -244,13 +246,20 @@ def applyOk (w : World) (c : Call) (r : Res) : Option World :=
   | .unlinkat d n, .ok _ =>
     (w.dirPath d).bind fun p => (w.lookup p n).map fun _ => w.unbind p n
   | .unlink _, .ok _ => some w           -- the unlinked temporary file lives outside every maildir
-  | .fstatat d n, .ok _ => (w.dirPath d).bind fun p => (w.lookup p n).map fun _ => w
+  | .fstatat d n, .ok v =>
+    -- the value of a successful fstatat is the file's modification time (the only field mdsort uses)
+    (w.dirPath d).bind fun p => (w.lookup p n).bind fun fid =>
+      if w.mtime fid == v then some w else none
   | .stat _, .ok _ => some w
-  | .utimensat d n, .ok _ => (w.dirPath d).bind fun p => (w.lookup p n).map fun _ => w
+  | .utimensat d n _ mt, .ok _ =>
+    (w.dirPath d).bind fun p => (w.lookup p n).map fun fid =>
+      match mt with
+      | some t => w.setMtime fid t
+      | none => w
   | .lseek _, .ok _ => some w
   | .mkostemp _, .ok _ =>
     let fid := w.nextFid
-    let w1 := ({ w with nextFid := fid + 1 }).setFile fid { data := [], durable := [], mtime := 0 }
+    let w1 := ({ w with nextFid := fid + 1 }).setFile fid { data := [], durable := [] }
     some (w1.newHandle (.file fid 0 true)).1
   | .mkdtemp _, .name p => some { w with dirs := w.dirs ++ [(p, [])] }
   | .mkdir p, .ok _ => some { w with dirs := w.dirs ++ [(p, [])] }
